@@ -169,6 +169,8 @@ func boundsHelpers(c *Ctx, r *RuleResult, roots []string, tier string) {
 		work = append(work, f)
 	}
 	var helpers []*ssa.Function
+	type closureOf struct{ fn, parent *ssa.Function }
+	var closures []closureOf
 	for len(work) > 0 {
 		f := work[0]
 		work = work[1:]
@@ -191,11 +193,7 @@ func boundsHelpers(c *Ctx, r *RuleResult, roots []string, tier string) {
 			}
 		}
 		for _, a := range f.AnonFuncs {
-			for _, ob := range boundsObligations(NewProver(c, a), a) {
-				_ = ob
-				r.undecided("%s contains a closure with index operations; facts of the enclosing function are not available inside it", c.short(f))
-				break
-			}
+			closures = append(closures, closureOf{a, f})
 		}
 	}
 	provers := map[*ssa.Function]*Prover{}
@@ -247,6 +245,114 @@ func boundsHelpers(c *Ctx, r *RuleResult, roots []string, tier string) {
 					r.oblig(ok2)
 					if !ok2 {
 						r.find(hname+":panic", c.instrPos(p), "%s contains a reachable explicit panic", hname)
+					}
+				}
+			}
+		}
+	}
+	// closures of the decoders and helpers: an obligation not provable inside the closure is lifted to
+	// every call of the closure, where parameters become the arguments and captured variables the
+	// values they hold there
+	for _, cl := range closures {
+		a, f := cl.fn, cl.parent
+		AP := pr(a)
+		obs := boundsObligations(AP, a)
+		if len(obs) == 0 {
+			continue
+		}
+		aname := c.short(a)
+		// the closure value and its direct calls in the parent
+		var mc *ssa.MakeClosure
+		var calls []*ssa.Call
+		direct := true
+		for _, b := range f.Blocks {
+			for _, in := range b.Instrs {
+				if m, ok := in.(*ssa.MakeClosure); ok && m.Fn == ssa.Value(a) {
+					mc = m
+				}
+			}
+		}
+		if mc != nil && mc.Referrers() != nil {
+			for _, ref := range *mc.Referrers() {
+				switch x := ref.(type) {
+				case *ssa.Call:
+					if x.Call.Value == ssa.Value(mc) {
+						calls = append(calls, x)
+					} else {
+						direct = false
+					}
+				case *ssa.DebugRef:
+				default:
+					direct = false
+				}
+			}
+		}
+		FP := pr(f)
+		free := func(at *ssa.Call) func(fv *ssa.FreeVar) ssa.Value {
+			return func(fv *ssa.FreeVar) ssa.Value {
+				for k, x := range a.FreeVars {
+					if x != fv || k >= len(mc.Bindings) {
+						continue
+					}
+					cell, ok := mc.Bindings[k].(*ssa.Alloc)
+					if !ok {
+						return nil
+					}
+					var st *ssa.Store
+					for _, ref := range *cell.Referrers() {
+						if s, ok := ref.(*ssa.Store); ok && s.Addr == ssa.Value(cell) {
+							if st != nil {
+								return nil
+							}
+							st = s
+						}
+					}
+					if st == nil || !onlyStore(cell, st) || !(st.Block() == at.Block() || st.Block().Dominates(at.Block())) {
+						return nil
+					}
+					return st.Val
+				}
+				return nil
+			}
+		}
+		for _, ob := range obs {
+			if src := c.srcAt(ob.in.Pos()); src != "" {
+				ob.desc = src
+			}
+			r.inst("%s (closure): %s", aname, ob.desc)
+			for k, g := range ob.goals {
+				if AP.Prove(g, ob.in.Block()) {
+					r.oblig(true)
+					continue
+				}
+				if mc == nil || !direct || len(calls) == 0 {
+					r.undecided("%s: %s needs %s, which is not provable inside the closure, and the closure is not only called directly (stored or passed on): not decided", aname, ob.desc, ob.names[k])
+					continue
+				}
+				allOK := true
+				where := ""
+				for _, call := range calls {
+					t, ok := translatePolyX(AP, g, a, FP, call.Call.Args, free(call))
+					if !ok || !FP.Prove(t, call.Block()) {
+						allOK = false
+						where = c.instrPos(call)
+						break
+					}
+				}
+				r.oblig(allOK)
+				if !allOK {
+					r.find(aname+":"+ob.desc, c.instrPos(ob.in), "%s: cannot prove %s for %s inside the closure, nor at its call %s with the captured variables' values there", aname, ob.names[k], ob.desc, where)
+				}
+			}
+		}
+		for _, b := range a.Blocks {
+			for _, in := range b.Instrs {
+				if p, ok := in.(*ssa.Panic); ok {
+					r.inst("%s (closure): explicit panic", aname)
+					ok2 := AP.Unreachable(b, nil)
+					r.oblig(ok2)
+					if !ok2 {
+						r.find(aname+":panic", c.instrPos(p), "%s contains a reachable explicit panic", aname)
 					}
 				}
 			}
@@ -311,8 +417,35 @@ func reducible(fn *ssa.Function) bool {
 // integer; or symmetrically decreasing.
 func ruleTerm(c *Ctx, fns []string) *RuleResult {
 	r := &RuleResult{Rule: "TERM", Doc: "every loop of the decoder has a strictly monotone integer counter that is bounded by a loop-invariant value whenever the loop goes round again (ranking function B - counter)", MinInst: 3}
+	// the decoders, the unexported same-package helpers they call (transitively) and all their closures
+	var scope []*ssa.Function
+	seenFn := map[*ssa.Function]bool{}
+	var addFn func(f *ssa.Function)
+	addFn = func(f *ssa.Function) {
+		if f == nil || seenFn[f] || f.Blocks == nil {
+			return
+		}
+		seenFn[f] = true
+		scope = append(scope, f)
+		for _, a := range f.AnonFuncs {
+			addFn(a)
+		}
+		for _, b := range f.Blocks {
+			for _, in := range b.Instrs {
+				if call, ok := in.(*ssa.Call); ok {
+					h := call.Call.StaticCallee()
+					if h != nil && h.Pkg != nil && h.Pkg == f.Pkg && h.Signature.Recv() == nil && h.Object() != nil && !h.Object().Exported() {
+						addFn(h)
+					}
+				}
+			}
+		}
+	}
 	for _, name := range fns {
-		fn := c.Fn(name)
+		addFn(c.Fn(name))
+	}
+	for _, fn := range scope {
+		name := c.short(fn)
 		if !reducible(fn) {
 			r.inst("%s: control flow", name)
 			r.oblig(false)
